@@ -198,4 +198,23 @@ CHECKS = {
         "design_ref": "DESIGN.md section 4, C12",
         "min_obs": {"decisions": 20000, "e2e_requests": 50},
     },
+    "C09": {
+        "scenarios": [("C09-peer", "vsim"), ("C01-tcp", "vsim", 0.5), ("C02-udp", "vsim", 0.5), ("C03-close", "vsim", 0.25), ("C14-sweep", "vsim", 0.25)],
+        "rides_on": ["C09"],
+        "rule": "(a) every segment emitted in the C01/C02/C03/C14 runs is decoded strictly by the reference codec (key derivation per time "
+                "slot, nonce progression per transport, user hint on client nonces, metadata layouts and minute stamp, length fields, "
+                "canonical low-entropy bodies) and the re-assembled payload is compared with what the application wrote; (b) a peer "
+                "written from docs/protocol.md plays TCP client, TCP server and UDP client against the real endpoint using every "
+                "documented freedom: padding lengths 0..255, any mask of the required weight, all 31 rotations, both padding polarities, "
+                "open request payload 0..1024, open response payload 0..1024, maximum fragments; the real application must read exactly "
+                "what the reference peer sent and vice versa; distinct = (role, case index) / shapes of the ridden runs",
+        "technique": "runtime monitor: independent reference implementation of the documented wire protocol as strict decoder of all "
+                     "emitted traffic and as third-party peer of the real endpoint",
+        "text": "A symmetric change that keeps mieru talking to itself is visible because the reference codec shares no code with it.",
+        "note": "trusted: refcodec as one reading of docs/protocol.md (imports only x/crypto and the standard library); it is "
+                "cross-validated against the real code in both directions by this very check",
+        "design_ref": "DESIGN.md section 4, C09",
+        "min_obs": {"segments": 5000, "bytes_compared": 1000000, "ref_segments_sent": 200},
+        "timeout": {"quick": 1200, "thorough": 14000},
+    },
 }
